@@ -339,6 +339,34 @@ func extra() {
 	}
 	emitStr("pruneCallArgs", callArgs)
 	emitStr("pruneStopCondition", stopCond)
+	// the command line: which flag is bound to which field of the action (f.XxxVar(&client.Field, "flag", ...))
+	flagBindings := func(file string) [][2]string {
+		var out [][2]string
+		ast.Inspect(parse(file), func(n ast.Node) bool {
+			c, ok := n.(*ast.CallExpr)
+			if !ok || len(c.Args) < 2 {
+				return true
+			}
+			sel, ok := c.Fun.(*ast.SelectorExpr)
+			if !ok || !strings.Contains(sel.Sel.Name, "Var") {
+				return true
+			}
+			u, ok := c.Args[0].(*ast.UnaryExpr)
+			if !ok || u.Op.String() != "&" {
+				return true
+			}
+			if name, ok := litString(c.Args[1], nil); ok {
+				out = append(out, [2]string{name, exprText(u.X)})
+			}
+			return true
+		})
+		sort.Slice(out, func(i, j int) bool { return out[i][0] < out[j][0] || (out[i][0] == out[j][0] && out[i][1] < out[j][1]) })
+		return out
+	}
+	emitPairs("installFlags", flagBindings("pkg/cmd/install.go"))
+	emitPairs("upgradeFlags", flagBindings("pkg/cmd/upgrade.go"))
+	emitPairs("rollbackFlags", flagBindings("pkg/cmd/rollback.go"))
+	emitPairs("uninstallFlags", flagBindings("pkg/cmd/uninstall.go"))
 	emitSkeletons()
 	// order in which Options.MergeValues applies the value-flag families
 	emitList("valueFlagOrder", rangeOrder(funcDecl(parse("pkg/cli/values/options.go"), "Options", "MergeValues")))
